@@ -78,6 +78,14 @@ _CLIENT_STATE_TRUSTED = [
 ]
 
 PROPS = dict(
+    C16=dict(
+        level='exploration',
+        verus=[], kani=[], native=['rumqttd'],
+        scope='REDUCED SCOPE (router part): a registered will is published to the current matching subscribers exactly once when a PublishWill signal arrives, never after the client sent DISCONNECT, never for a client without a will; a retained will becomes the retained message of its topic',
+        residual='WHEN the signal is produced — connection end without DISCONNECT, keep-alive expiry, will delay, cancellation on takeover — is decided by an async task with timers and channels (broker.rs::remote) and is NOT covered',
+        trusted_base=['rustc as compiled'],
+        assumptions=['BOUNDED stand-in at router level; the fire/cancel decision is outside every engine here'],
+    ),
     C19=dict(
         level='exploration',
         verus=[], kani=[], native=['rumqttd'],
